@@ -4,6 +4,7 @@ import random
 
 import tlc
 import common
+import pipeline
 import tsm
 
 ASSUME = [
@@ -269,6 +270,7 @@ def run(pid, tier, seed):
                           "a stream was attached and a circuit closed or a stream detached" if pid == "C07"
                           else "at least one listener / wait / close request"))
     res, runs = tlc.validate_parallel("TorStateMTrace", "TorStateMTrace.cfg", traces, nproc=14, chunk=100, timeout=3000)
+    pipeline.selftest_from(rep, "TorStateMTrace", "TorStateMTrace.cfg", traces[:60], res[:60])
     for r in runs:
         rep.cov["states"] += r.distinct
         rep.cov["transitions"] += r.generated
